@@ -294,13 +294,8 @@ fn real_bin(word: &str, a: f64, b: f64) -> Exp {
                 Exp::Real(a / b)
             }
         }
-        "rem" => {
-            if b == 0.0 {
-                Exp::RealOrDivZero(a % b)
-            } else {
-                Exp::Real(a % b)
-            }
-        }
+        // only the INTEGER remainder by zero is a division error; the real one is IEEE (NaN)
+        "rem" => Exp::Real(a % b),
         "min" | "max" => {
             if nan {
                 Exp::Unspecified
